@@ -109,7 +109,12 @@ class Runner:
         self.nlabel += 1
         self.labels[id(ev)] = self.nlabel
         self.keep.append(ev)
+        self.hook('new', ev)
         return ev
+
+    def hook(self, what, *a):
+        """instrumentation point for the oracle runs (harness/koracle.py); a no-op in the compared runs"""
+        return None
 
     def lab(self, ev):
         return self.labels.get(id(ev), 0)
@@ -200,15 +205,29 @@ class Runner:
                     slots[ins[1]] = self.new(env.timeout(ins[2], ins[3]))
                 elif op == 'event':
                     slots[ins[1]] = self.new(env.event())
-                elif op == 'succeed':
-                    if ins[1] in slots: slots[ins[1]].succeed(ins[2])
-                elif op == 'fail':
-                    if ins[1] in slots: slots[ins[1]].fail(EXC[ins[2]](ins[3]))
+                elif op in ('succeed', 'fail'):
+                    if ins[1] in slots:
+                        ev = slots[ins[1]]
+                        was = ev.triggered
+                        try:
+                            if op == 'succeed': ev.succeed(ins[2])
+                            else: ev.fail(EXC[ins[2]](ins[3]))
+                            self.hook('trigger', name, ev, was, False)
+                        except RuntimeError:
+                            self.hook('trigger', name, ev, was, True)
+                            raise
                 elif op == 'spawn':
                     slots[ins[1]] = self.spawn(ins[2], ins[3])
                 elif op == 'interrupt':
                     ev = slots.get(ins[1])
-                    if ev is not None and isinstance(ev, Process): ev.interrupt(ins[2])
+                    if ev is not None and isinstance(ev, Process):
+                        alive, selfi = ev.is_alive, env.active_process is ev
+                        try:
+                            ev.interrupt(ins[2])
+                            self.hook('interrupt', name, ev, ins[2], alive, selfi, False)
+                        except RuntimeError:
+                            self.hook('interrupt', name, ev, ins[2], alive, selfi, True)
+                            raise
                 elif op == 'probe':
                     ev = slots.get(ins[1])
                     if ev is not None and ev.callbacks is not None: ev.callbacks.append(self.probe_cb(ins[2]))
@@ -217,6 +236,7 @@ class Runner:
                 elif op in ('allof', 'anyof'):
                     evs = [slots[s] for s in ins[2:] if s in slots]
                     slots[ins[1]] = self.new((AllOf if op == 'allof' else AnyOf)(env, evs))
+                    self.hook('cond', slots[ins[1]], op, evs)
                 elif op == 'request':
                     r = self.res[ins[2]]
                     if self.case.res[ins[2]][0] == 'resource': slots[ins[1]] = self.new(r.request())
@@ -255,13 +275,16 @@ class Runner:
             if op == 'yield':
                 ev = slots.get(ins[1]); h = ins[2]
                 while ev is not None:
+                    self.hook('yield', name, ev)
                     try:
                         v = yield ev
+                        self.hook('resumed', name, True, v)
                         self.log(name, 'got', v)
                         break
                     except GeneratorExit:
                         raise
                     except BaseException as x:
+                        self.hook('resumed', name, False, x)
                         self.log(name, f'exc {type(x).__name__}', x.args[0] if x.args else None)
                         if h == 1:
                             h = 0; ev = slots.get(ins[1]); continue
